@@ -141,6 +141,76 @@ def obligations(tier, seed):
 """
                 obs.append(Ob(f"fn.kind.{exc2}", build([R("c", 0, 4), R("v0", 0, 129), R("nv", 0, 129)], body2, setup=SETUP), f"set_via_fn with a callable failing by {exc2} at any cell: the exception reaches the caller and the pattern is unchanged",
                               group="fn", shape="2x2 unattached", symbolic="failing cell 0..3 or never, contents", timeout=120))
+        # histories: two successive bulk edits, each of a symbolic kind (fn / gen) and each failing at a symbolic point or not at
+        # all, checked against a cell-by-cell model after every step (a failed edit must leave no trace in a later successful one)
+        if (L, T) == (2, 2):
+            for attached in (False, True):
+                body = f"""
+    pat = Pattern(lines=2, tracks=2)
+    pat.data[0][0].vel = v0
+    pat.data[0][1].vel = v1
+    pat.data[1][0].vel = v2
+    pat.data[1][1].vel = v3
+    proj = None
+    if {attached}:
+        proj = Project()
+        proj.attach_pattern(pat)
+    model = [pat.data[c_ // 2][c_ % 2].raw_data for c_ in range(4)]
+    visits = [[(0, 1), (1, 0)], [(1, 1)]]
+    for step, (kind, j, nv) in enumerate(((k1, j1, n1), (k2, j2, n2))):
+        before = pat.raw_data
+        objs = [n for line in pat.data for n in line]
+        cells = visits[step]
+        if kind == 0:
+            def fn(p_, line, track):
+                if line * 2 + track == j:
+                    raise Boom()
+                return Note(vel=nv, ctl=step + 1)
+            try:
+                pat.set_via_fn(fn)
+                ok = True
+            except Boom:
+                ok = False
+            if ok != (j >= 4):
+                return False
+            if ok:
+                model = [Note(vel=nv, ctl=step + 1).raw_data] * 4
+        else:
+            def gen(p_, new):
+                k = 0
+                for (l, t) in cells:
+                    if k == j:
+                        raise Boom()
+                    yield l, t, Note(vel=nv, val=k + 1)
+                    k += 1
+                if k == j:
+                    raise Boom()
+            try:
+                pat.set_via_gen(gen)
+                ok = True
+            except Boom:
+                ok = False
+            if ok != (j > len(cells)):
+                return False
+            if ok:
+                k = 0
+                for (l, t) in cells:
+                    model[l * 2 + t] = Note(vel=nv, val=k + 1).raw_data
+                    k += 1
+        now = [n for line in pat.data for n in line]
+        if not ok and (pat.raw_data != before or not all(a is b for a, b in zip(now, objs))):
+            return False
+        if [n.raw_data for n in now] != model:
+            return False
+        for n in now:
+            if n.pattern is not pat or (proj is not None and n.project is not proj):
+                return False
+    return True
+"""
+                obs.append(Ob(f"history.2x2.{'att' if attached else 'free'}", build([R("v0", 0, 129), R("v1", 0, 129), R("v2", 0, 129), R("v3", 0, 129), R("k1", 0, 1), R("j1", 0, 4), R("n1", 0, 129), R("k2", 0, 1), R("j2", 0, 4), R("n2", 0, 129)], body, setup=SETUP),
+                              "two successive bulk edits of any kind (function / generator), each failing at any point or completing: after every step the pattern equals the cell-by-cell model "
+                              "(a failed edit leaves it exactly as before AND leaves no trace in the next edit; untouched cells keep their content), notes stay owned",
+                              group="history", shape=f"2x2 {'attached' if attached else 'not attached'}; generator visits (0,1),(1,0) then (1,1)", symbolic="kind and failure point of both edits, previous velocities, new velocities", timeout=300))
         # two successive edits, then project-aware accessors
         body = f"""
     proj = Project()
